@@ -20,10 +20,20 @@ type progBuilder struct {
 	tag  string
 	next int // next fresh element value
 	wrap int // values wrap after this one (0: 90)
+	// wide: (int / uint programs) values WRITTEN by set/apply/… are sometimes outside the 32-bit range: the C back-end of these two
+	// instantiations holds C.int / C.uint (32 bit), the Go back-end 64 bit (finding c-int-width). Root contents stay small: a C
+	// root is the caller's buffer of C ints, which cannot hold a wide value in the first place.
+	wide   bool
+	inRoot bool
+	nWide  int
 }
 
 func newProg(r *Rng, tag, elt string) *progBuilder {
-	return &progBuilder{r: r, ref: &refState{defined: true}, elt: elt, tag: tag, next: 1}
+	p := &progBuilder{r: r, ref: &refState{defined: true}, elt: elt, tag: tag, next: 1}
+	if elt == "int" || elt == "uint" {
+		p.wide = r.Chance(0.5)
+	}
+	return p
 }
 
 func (p *progBuilder) add(op string) {
@@ -58,6 +68,24 @@ func (p *progBuilder) freshVals(n int) []int {
 	out := make([]int, n)
 	for i := range out {
 		out[i] = p.next
+		if p.wide && !p.inRoot && p.r.Chance(0.25) {
+			// outside the 32-bit range, distinct low words: 2^40+k, (int only) -2^35-k, 2^31+k (fits uint32, not int32), 2^32+k
+			switch p.r.Intn(4) {
+			case 0:
+				out[i] = 1<<40 + p.next
+			case 1:
+				if p.elt == "int" {
+					out[i] = -(1 << 35) - p.next
+				} else {
+					out[i] = 1<<32 + p.next
+				}
+			case 2:
+				out[i] = 1<<31 + p.next
+			default:
+				out[i] = 1<<32 + p.next
+			}
+			p.nWide++
+		}
 		p.next++
 		w := p.wrap
 		if w == 0 {
@@ -81,6 +109,8 @@ func (p *progBuilder) randShape(maxRank, maxExt int) []int {
 
 func (p *progBuilder) addRoot(isC bool, shape []int) {
 	n := prod(shape)
+	p.inRoot = true
+	defer func() { p.inRoot = false }()
 	switch {
 	case isC:
 		p.add(fmt.Sprintf("cwrap %s %s", Is(p.freshVals(n)), Is(shape)))
@@ -461,6 +491,9 @@ func genND(c *Ctx) {
 		c.Do(p.body(), nontrivial(p))
 		c.Stats.Count("backend:" + p.tag)
 		c.Stats.Count("eltype:" + p.elt)
+		if p.nWide > 0 {
+			c.Stats.Count("programs_writing_values_outside_32_bits:" + p.elt + ":" + p.tag)
+		}
 		c.Stats.Count(fmt.Sprintf("ops:%s", bucket(len(p.ops))))
 		if !p.ref.defined {
 			c.Stats.Count("programs_leaving_reference_domain")
